@@ -83,7 +83,7 @@ def run(ctx):
                     if a[0] in ("var", "named"):
                         obj = a[2]
                 casts.append(dict(b=b, i=i, dst=st["d"]["l"], obj=obj, line=st["ln"], src=show(src)))
-    ck.floor("address-exposing casts", len(casts), 4)
+    ck.floor("address-exposing casts", len(casts), 3)
 
     # 2. address-keyed maps: HashMap::insert whose key is an exposed address (directly or via a
     #    work-item field of the same integer type)
@@ -296,6 +296,48 @@ def structure(ctx, ck, cr):
         elif c.endswith("Vec::<T, A>::push"):
             a = args(t)
             calls.setdefault("push:" + a[0].replace("&mut ", ""), []).append((b, a[1:]))
+    # a private helper that interns one pair (look up (l, r); else new_pair(l, r) and insert under (l, r); return the node) is
+    # summarised and its call sites are treated like the inline form
+    helpers = {}
+    for b, t in f.calls():
+        c = t.get("callee") or ""
+        g = cr.fns.get(c)
+        if g is None or c in helpers or not g.calls_to("clvmr::Allocator::new_pair"):
+            continue
+        nps = g.calls_to("clvmr::Allocator::new_pair")
+        summ = None
+        if len(nps) == 1:
+            a_ = [g.unparam(show(g.expr_op(x))).replace("&mut ", "").replace("*", "") for x in nps[0][1]["args"]]
+            if len(a_) == 3 and all(_re.fullmatch(r"\$\d+", x) for x in a_):
+                al_, l_, r_ = a_
+                gk = [g.unparam(show(g.expr_op(tt["args"][1]))) for _, tt in g.calls() if "HashMap" in (tt.get("callee") or "") and (tt.get("callee") or "").endswith("::get")]
+                gi = [(g.unparam(show(g.expr_op(tt["args"][1]))), g.unparam(show(g.expr_op(tt["args"][2])))) for _, tt in g.calls()
+                      if "HashMap" in (tt.get("callee") or "") and (tt.get("callee") or "").endswith("::insert")]
+                okh = gk == [f"&tuple({l_}, {r_})"] and len(gi) == 1 and gi[0][0] == f"tuple({l_}, {r_})" and "Allocator::new_pair(" in gi[0][1]
+                # what it returns: the looked-up node or the created one, nothing else
+                outs = []
+                for bb in g.reachable_blocks():
+                    for st in g.stmts(bb):
+                        rv = st.get("rv", {})
+                        if st.get("d") and st["d"]["l"] == 0 and "agg" in rv and isinstance(rv["agg"][0], dict) and rv["agg"][0].get("variant") == "Ok":
+                            outs.append(g.unparam(show(g.expr_op(rv["agg"][1][0]))))
+                okh = okh and len(outs) == 2 and sorted(("created" if "Allocator::new_pair(" in o else "existing" if "::get(&" in o else "?") for o in outs) == ["created", "existing"]
+                if okh:
+                    summ = (int(al_[1:]) - 1, int(l_[1:]) - 1, int(r_[1:]) - 1)
+        helpers[c] = summ
+        ck.ob("R27b", FN + f"|helper {c.split('::')[-1]}", summ is not None,
+              "a pair-interning helper looks (l, r) up, otherwise creates new_pair(l, r) and stores it under (l, r), and returns that node",
+              site=g.where(0))
+        ck.analysed(g)
+    for b, t in f.calls():
+        summ = helpers.get(t.get("callee") or "")
+        if summ:
+            a = args(t)
+            L, R = a[summ[1]], a[summ[2]]
+            calls.setdefault("new_pair", []).append((b, [L, R]))
+            calls.setdefault("get:pair_map", []).append((b, [f"&tuple({L}, {R})"]))
+            calls.setdefault("insert:pair_map", []).append((b, [f"tuple({L}, {R})", f"Allocator::new_pair(&mut allocator, {L}, {R})"]))
+    helper_names = tuple(c + "(" for c, sm in helpers.items() if sm)
     np_ = sorted(a for _, a in calls.get("new_pair", []))
     ck.ob("R27b", FN + "|new_pair children", np_ == sorted([["IM[ID(LEFT)]", "IM[ID(RIGHT)]"], ["IM[BP.left_id]", "IM[BP.right_id]"]]),
           "both pair constructions use (converted left, converted right) of the object being built", site=f.where(calls.get("new_pair", [(0, 0)])[0][0]), detail=np_)
@@ -323,10 +365,12 @@ def structure(ctx, ck, cr):
             pl = t["args"][2].get("mv") or t["args"][2].get("cp")
             # follow plain copies back to the `node` local
             while pl and not pl["p"] and len(f.defs(pl["l"])) == 1 and f.defs(pl["l"])[0][1] != "T" and "use" in f.def_rvalue(f.defs(pl["l"])[0]) \
-                    and (f.def_rvalue(f.defs(pl["l"])[0])["use"].get("mv") or f.def_rvalue(f.defs(pl["l"])[0])["use"].get("cp")):
+                    and (f.def_rvalue(f.defs(pl["l"])[0])["use"].get("mv") or f.def_rvalue(f.defs(pl["l"])[0])["use"].get("cp")) \
+                    and not (f.def_rvalue(f.defs(pl["l"])[0])["use"].get("mv") or f.def_rvalue(f.defs(pl["l"])[0])["use"].get("cp"))["p"]:
                 u = f.def_rvalue(f.defs(pl["l"])[0])["use"]
                 pl = u.get("mv") or u.get("cp")
-            srcs = sorted(("created" if "Allocator::new_" in dx else "existing" if "::get(&" in dx else "?")
+            srcs = sorted(("created/existing" if helper_names and any(h in dx for h in helper_names) else
+                           "created" if "Allocator::new_" in dx else "existing" if "::get(&" in dx else "?")
                           for dx in (show(f.expr_rvalue(f.def_rvalue(d_))) if d_[1] != "T" else "call" for d_ in f.defs(pl["l"]))) if pl and not pl["p"] else ["?"]
             vals.append("/".join(srcs))
     vals = sorted(vals)
